@@ -1,5 +1,11 @@
 """C14 — spatial indices report exactly the overlapping pairs."""
 
+# vcheck's SAN_ENV with allocator tuning only (default quarantine + release-to-OS
+# makes the many small Collider allocations page-fault bound on a loaded machine)
+_ASAN = ("abort_on_error=0:detect_leaks=0:allocator_may_return_null=1:max_allocation_size_mb=4096:exitcode=97:"
+         "handle_abort=1:detect_stack_use_after_return=0:malloc_context_size=4:quarantine_size_mb=16:"
+         "allocator_release_to_os_interval_ms=-1")
+
 CHECK = {
     "id": "C14",
     "level": "exploration",
@@ -23,20 +29,31 @@ CHECK = {
     "stages": [
         {"name": "exh", "variant": "asan", "harness": "c14_spatial.cpp",
          "cases": {"quick": 900, "thorough": 17940},
-         "params": {"mode": "exh"}, "case_timeout": 300},
+         "params": {"mode": "exh"}, "env": {"ASAN_OPTIONS": _ASAN}, "case_timeout": 300},
         {"name": "collider", "variant": "asan", "harness": "c14_spatial.cpp",
-         "cases": {"quick": 3000, "thorough": 60000},
+         "cases": {"quick": 3000, "thorough": 30000},
          "params": {"mode": "collider", "maxLeaves": {"quick": 3000, "thorough": 100000},
-                    "pairBudget": {"quick": 1000000, "thorough": 4000000}},
-         "case_timeout": 300},
+                    "pairBudget": {"quick": 150000, "thorough": 600000}},
+         "env": {"ASAN_OPTIONS": _ASAN}, "case_timeout": 300},
         {"name": "bvh2d", "variant": "asan", "harness": "c14_spatial.cpp",
-         "cases": {"quick": 1500, "thorough": 30000},
+         "cases": {"quick": 1000, "thorough": 15000},
          "params": {"mode": "bvh2d", "maxBoxes": {"quick": 2500, "thorough": 12000}},
-         "case_timeout": 300},
+         "env": {"ASAN_OPTIONS": _ASAN}, "case_timeout": 300},
         {"name": "tree2d", "variant": "asan", "harness": "c14_spatial.cpp",
          "cases": {"quick": 3000, "thorough": 100000},
          "params": {"mode": "tree2d", "maxPoints": {"quick": 3000, "thorough": 30000}},
-         "case_timeout": 300},
+         "env": {"ASAN_OPTIONS": _ASAN}, "case_timeout": 300},
+        # real-TBB build: crosses the parallel thresholds (radix tree > 1e4 internal nodes, BuildInternalBoxes > 1e3,
+        # Collisions / BVHCollisions > 512 queries, CollectIntersectionPairs' PairsRecorder path)
+        {"name": "par-collider", "variant": "tbb", "harness": "c14_spatial.cpp",
+         "cases": {"quick": 32, "thorough": 400},
+         "params": {"mode": "collider", "par": 1, "minLeaves": 10500, "maxLeaves": {"quick": 20000, "thorough": 60000},
+                    "pairBudget": 1000000},
+         "case_timeout": 600},
+        {"name": "par-bvh2d", "variant": "tbb", "harness": "c14_spatial.cpp",
+         "cases": {"quick": 32, "thorough": 400},
+         "params": {"mode": "bvh2d", "par": 1, "maxBoxes": {"quick": 14000, "thorough": 30000}},
+         "case_timeout": 600},
     ],
     "assumptions": [
         "leaf Morton codes are sorted ascending and boxes permuted with them (the precondition sort.cpp establishes); >= 2 leaves",
